@@ -1,4 +1,5 @@
 """C06 - objID / specObjID packing.  Spec: spec/IdLayout.tla; MC: mc/MC_IdLayout; Trace: trace/Trace_IdLayout."""
+import os
 import random
 import re
 
@@ -244,6 +245,8 @@ def run(ctx):
         c['str'] = list(c['str'])
         if any(v != RANGES[c['kind']][k][0] for k, v in c['f'].items()):
             ctx.nontriv((c['kind'], tuple(sorted(c['f'].items()))))
+        if not exp['err'] and bits_to_int(exp['id']) != arith_id(c['kind'], c['f']):
+            raise core.MachineryError('IdLayout.tla (bit sets) and IdLayoutArith.tla (arithmetic) disagree on %r' % (c,))
         if c['str'] and not exp['err']:
             r2cases.append((c, exp))
         if c['conv'] == 'array' and not exp['err']:
@@ -365,7 +368,50 @@ def run(ctx):
             r2['unwrapped'][nme] += 1
         fals.append(r2)
     core.binding_selftest(ctx, 'Trace_IdLayout', fals, 'recorded_calls')
+    apalache_all_tuples(ctx)
     ctx.exhaustive = not ctx.quick
+
+
+SHIFT = {'obj': {'skyversion': 59, 'rerun': 48, 'run': 32, 'camcol': 29, 'firstfield': 28, 'field': 16, 'object': 0},
+         'spec': {'plate': 50, 'fiber': 38, 'mjd': 24, 'run2d': 10, 'line': 0}}
+
+
+def arith_id(kind, f):
+    """The identifier as apalache/IdLayoutArith.tla writes it (sum of field * 2^lowest bit)."""
+    return sum(int(v) << SHIFT[kind][k] for k, v in f.items())
+
+
+def apalache_all_tuples(ctx):
+    """Unbounded part: the layout laws for EVERY in-range field tuple (apalache/IdLayoutArith.tla), plus a negative
+    control that must be refuted.  The arithmetic rendering is tied to the bit-set rendering of IdLayout.tla by
+    comparing arith_id with TLC's bit sets on every enumerated in-range case (done by the caller)."""
+    import shutil
+    import subprocess
+    spec = os.path.join(core.VERIF, 'apalache', 'IdLayoutArith.tla')
+    out = os.path.join(ctx.scratch, 'apalache')
+    results = []
+    for name, inv, must_hold in (('layout laws for all in-range tuples', 'Inv', True),
+                                 ('negative control: overlapping camcol/firstfield', 'NegativeControl', False)):
+        cmd = ['apalache-mc', 'check', '--init=Init', '--next=Next', '--inv=' + inv, '--length=0', '--out-dir=' + out, spec]
+        try:
+            p = subprocess.run(cmd, stdout=subprocess.PIPE, stderr=subprocess.STDOUT, text=True, timeout=900)
+        except (OSError, subprocess.TimeoutExpired) as ex:
+            raise core.MachineryError('apalache-mc failed to run: %r' % (ex,))
+        ok = 'The outcome is: NoError' in p.stdout
+        err = 'The outcome is: Error' in p.stdout
+        if not (ok or err):
+            raise core.MachineryError('apalache-mc gave no verdict for %s:\n%s' % (name, p.stdout[-1500:]))
+        if must_hold and not ok:
+            raise core.MachineryError('Apalache refuted: %s' % name)
+        if not must_hold and not err:
+            raise core.MachineryError('Apalache did not refute the %s' % name)
+        results.append({'obligation': name, 'verdict': 'holds' if ok else 'refuted (as required)'})
+    shutil.rmtree(out, ignore_errors=True)
+    ctx.cov['apalache_all_tuples'] = {'module': 'apalache/IdLayoutArith.tla',
+                                      'laws': ['ObjFits', 'SpecFits', 'ObjRoundTrip', 'SpecRoundTrip', 'ObjInjective', 'SpecInjective',
+                                               'OverflowCollides', 'Run2dString'],
+                                      'domain': 'every in-range field tuple of both layouts (unbounded integers, length-0 check)',
+                                      'results': results}
 
 
 def replay(ctx, case):
